@@ -95,16 +95,18 @@ type hGen struct {
 	epoch   map[string]int // ns/owner -> port epoch (bumped by a re-port of the whole workload)
 	touched []string       // pods touched by the latest mutation: the next queries look there first
 	// swarm knobs of this history
-	nsN, podN int   // size of the universe
-	tcpOnly   bool  // queries and rules stick to TCP
-	named     int   // out of 3: how often a rule port is the named port
-	broad     bool  // selectors are mostly empty, so policies really select the pods
-	weights   []int // per-history mix of mutation kinds
-	exprs     bool  // selectors are mostly matchExpressions (Exists / DoesNotExist / In / NotIn)
-	anpN      int   // number of ANP names in play
-	adminPre  int   // admin profile: ANPs inserted up front
-	owned     bool  // every pod has a controller (so every verdict is cacheable)
-	qports    []string
+	nsN, podN       int   // size of the universe
+	tcpOnly         bool  // queries and rules stick to TCP
+	named           int   // out of 3: how often a rule port is the named port
+	broad           bool  // selectors are mostly empty, so policies really select the pods
+	weights         []int // per-history mix of mutation kinds
+	exprs           bool  // selectors are mostly matchExpressions (Exists / DoesNotExist / In / NotIn)
+	anpN            int   // number of ANP names in play
+	adminPre        int   // admin profile: ANPs inserted up front
+	owned           bool  // every pod has a controller (so every verdict is cacheable)
+	qports          []string
+	qBurst          int // extra fresh queries after every mutation (eviction profile)
+	forceSmallCache bool
 }
 
 func (g *hGen) ns() string { return pick(g.r, hNS[:g.nsN]) }
@@ -629,7 +631,13 @@ func genHistory(r *rng, n int) *history {
 	g.weights[0] += 2 // a history always has pods
 	g.weights[2]++    // and namespaces
 	g.qports = hPorts
-	switch prof := r.intn(10); {
+	switch prof := r.intn(12); {
+	case prof >= 10:
+		// eviction profile: cache of 10 entries, many pods with owners, mutations that do not clear the
+		// cache (pod inserts, updates, deletes), and bursts of distinct questions in between
+		g.nsN, g.podN, g.owned, g.broad = r.between(1, 2), 5, true, true
+		g.qBurst, g.forceSmallCache = r.between(6, 14), true
+		g.weights = []int{10, 4, 0, 0, 1, 0, 0, 0, 0, 0, 1, 0, 0, 3, 3}
 	case prof < 2:
 		// admin profile: few pods, broad selectors, and a churn of admin policies whose actions collide
 		g.nsN, g.podN, g.broad, g.owned = r.between(1, 2), 3, true, true
@@ -685,9 +693,14 @@ func genHistory(r *rng, n int) *history {
 		g.touched = nil
 		g.mutate()
 		g.queries(g.r.between(1, 4))
+		for i := 0; i < g.qBurst; i++ {
+			q := g.newQuery()
+			g.asked = append(g.asked, q)
+			g.steps = append(g.steps, q)
+		}
 	}
 	h := &history{steps: g.steps, cache: 0}
-	if r.chance(1, 2) {
+	if r.chance(1, 2) || g.forceSmallCache {
 		h.cache = 10
 	}
 	return h
@@ -913,7 +926,8 @@ func runC15(tier string, seed uint64) int {
 		o.f = c15Oracle(h.steps, res.Trace)
 		o.bigrams, o.trans = map[string]bool{}, map[string]bool{}
 		prevHits, prevKeys, prevKind := 0, 0, "start"
-		mutated := false
+		mutations := 0
+		askedAt := map[string]int{} // query -> number of mutations seen when it was last asked
 		for k := range res.Trace.Events {
 			e := &res.Trace.Events[k]
 			st := &h.steps[e.Step]
@@ -927,17 +941,19 @@ func runC15(tier string, seed uint64) int {
 					o.failed++
 					kind += "!"
 				}
-				mutated = true
+				mutations++
 			} else {
 				o.queries++
+				qk := st.Src + "|" + st.Dst + "|" + st.Proto + "|" + st.Port
 				if e.CacheHits > prevHits {
 					o.hits++
-					if mutated {
-						o.hitsMut++
+					if at, ok := askedAt[qk]; ok && mutations > at {
+						o.hitsMut++ // served from the cache although the engine was mutated since the question was last asked
 					}
 				}
-				if e.CacheKeys < prevKeys || (j.CacheSize == 10 && e.CacheKeys == 10 && prevKeys == 10 && e.CacheHits == prevHits) {
-					o.evict = true
+				askedAt[qk] = mutations
+				if j.CacheSize == 10 && e.CacheKeys == 10 && prevKeys == 10 && e.CacheHits == prevHits && e.Allowed != nil {
+					o.evict = true // a verdict was added to a full cache: something was evicted
 				}
 			}
 			if e.CacheKeys < prevKeys {
@@ -1020,11 +1036,11 @@ func runC15(tier string, seed uint64) int {
 			"evaluations":         n,
 			"distinct_nontrivial": nontrivial,
 			"rule": "one evaluation = one seeded history (10-80 API calls on one live PolicyEngine, one OS process, one map-order schedule); every query is also put to two fresh engines built from the reference model; " +
-				"a history is non-trivial when at least one query was answered from the verdict cache after a mutating call (histories are distinct by seed-derived content)",
+				"a history is non-trivial when at least one query was answered from the verdict cache although a mutating call happened since the same question was last asked (histories are distinct by seed-derived content)",
 			"samples":                       samples,
 			"queries_checked":               queries,
 			"cache_hits":                    hits,
-			"cache_hits_after_a_mutation":   hitsMut,
+			"cache_hits_across_a_mutation":  hitsMut,
 			"histories_with_eviction":       evicts,
 			"operations_rejected_by_engine": failed,
 			"distinct_op_bigrams":           len(bigrams),
@@ -1043,7 +1059,7 @@ func runC15(tier string, seed uint64) int {
 			"a misreading of policy semantics shared by the live and the fresh engine is invisible here by design",
 		}}
 	writeEvidence(ev)
-	fmt.Printf("C15 %s seed=%d: %d histories, %d queries checked, %d cache hits after a mutation, %d failing histories, %d violations, %d known findings, %.1fs\n",
+	fmt.Printf("C15 %s seed=%d: %d histories, %d queries checked, %d cache hits across a mutation, %d failing histories, %d violations, %d known findings, %.1fs\n",
 		tier, seed, n, queries, hitsMut, len(bad), rp.violations, len(rp.known), sinceS(rp.start))
 	return rp.exitCode()
 }
